@@ -67,6 +67,7 @@ fn main() {
         "e2-verify" => std::process::exit(e2::verify_main(&argv[2..])),
         "e3-shard" => std::process::exit(props::conc::shard_main(&argv[2..])),
         "e3-debug" => std::process::exit(props::conc::debug_main(&argv[2..])),
+        "c18-shard" => std::process::exit(props::c18::shard_main(&argv[2..])),
         "c16-shard" => std::process::exit(props::c16::shard_main(&argv[2..])),
         "matrix" => std::process::exit(matrix::main_json()),
         "c19-child" => std::process::exit(props::c19::child_main(&argv[2..])),
